@@ -63,14 +63,25 @@ JudgeGet(e) ==
     ELSE IF e.ret # last'.vals THEN Drift("get_as_spec")
     ELSE Ok
 
+JudgeNames(e) ==
+    IF ~Pure(e) THEN Prop("C16_ReadsArePure")
+    ELSE IF ~e.ok THEN Drift("names_ok")
+    ELSE IF { e.names[k] : k \in 1..Len(e.names) } # DOMAIN store[e.grp] \/ Len(e.names) # Cardinality(DOMAIN store[e.grp])
+         THEN Drift("names_as_spec")
+    ELSE Ok
+
 JudgeMutate(e) ==
     IF ~Pure(e) THEN Prop("C16_ReadsArePure")
     ELSE IF e.snap # store' THEN Drift("store_as_spec")
     ELSE Ok
 
+(* e.fresh_ok / e.fresh_same (RenderTable only; TRUE for BaseCsv): the driver renders a NEW holder that   *)
+(* holds copies of the same series - a second execution of the real code on the same stored series, with  *)
+(* no call history.  "The same stored series always give the same text": the text must be that one.       *)
 JudgeText(e, key, srcdig, predicted) ==
     IF ~Pure(e) THEN Prop("C16_ReadsArePure")
-    ELSE IF ~e.ok THEN Drift("render_ok")
+    ELSE IF ~e.ok THEN (IF e.fresh_ok THEN Prop("C16_Repeatable") ELSE Drift("render_ok"))
+    ELSE IF ~e.fresh_same THEN Prop("C16_Repeatable")
     ELSE IF \E f \in seenT : f.key = key /\ f.dig = srcdig /\ f.tdig # e.tdig
          THEN Prop("C16_Repeatable")
     ELSE IF e.cols # predicted.cols THEN Drift("text_cells")
@@ -102,6 +113,14 @@ TraceNext ==
        \/ /\ e.ev = "SetCutoff"
           /\ SetCutoff(e.c)
           /\ obs' = ObsOf(e) /\ n' = n + 1 /\ UNCHANGED << verdict, seenG, seenT >>
+       \/ /\ e.ev = "GetNames"
+          /\ GetNames(e.grp)
+          /\ verdict' = Worse(verdict, JudgeNames(e))
+          /\ obs' = ObsOf(e) /\ n' = n + 1 /\ UNCHANGED << seenG, seenT >>
+       \/ /\ e.ev = "Replace"
+          /\ Replace(e.name, e.op)
+          /\ verdict' = Worse(verdict, IF e.snap # store' THEN Drift("store_as_spec") ELSE Ok)
+          /\ obs' = ObsOf(e) /\ n' = n + 1 /\ UNCHANGED << seenG, seenT >>
        \/ /\ e.ev = "SetMaxTime"
           /\ SetMaxTime(e.c)
           /\ obs' = ObsOf(e) /\ n' = n + 1 /\ UNCHANGED << verdict, seenG, seenT >>
